@@ -783,7 +783,9 @@ def _chan_cb_error_closes_with_error():
     t = _src(f)
     i = t.find("self.gateway._send(Message.CHANNEL_CLOSE_ERROR, id, dumps_internal(errortext))")
     j = t.find("self._local_close(id, RemoteError(errortext))")
-    return "true" if 0 <= i < j and "errortext = self.gateway._geterrortext(exc)" in t else "false"
+    # ... and a connection that has gone meanwhile does not keep the local close (or the frames that arrived behind) from being handled
+    guarded = "try:\n                self.gateway._send(Message.CHANNEL_CLOSE_ERROR, id, dumps_internal(errortext))\n            except OSError:\n                pass\n            self._local_close(id, RemoteError(errortext))" in _src(_Strip().visit(__import__("copy").deepcopy(f)))
+    return "true" if 0 <= i < j and guarded and "errortext = self.gateway._geterrortext(exc)" in t else "false"
 
 
 @fact("chan_errortext_ok", "bool", "false")
